@@ -277,6 +277,10 @@ def catalogue():
         return C.ControlAction(wn.get_link(link), attr, val)
     @dev("k_time_close", "ctl1")
     def _(wn): wn.add_control("c1", C.Control(C.SimTimeCondition(wn, "=", 2 * 3600), act(wn, "p3", "status", LS.Closed)))
+    @dev("k_time_ge", "ctl1")          # API only: a simple control on 'time >= t' (an INP control line only knows AT TIME)
+    def _(wn): wn.add_control("c1", C.Control(C.SimTimeCondition(wn, ">=", 2 * 3600 + 600), act(wn, "p3", "status", LS.Closed)))
+    @dev("k_clock_after", "ctl1")
+    def _(wn): wn.add_control("c1", C.Control(C.TimeOfDayCondition(wn, ">=", 5 * 3600 + 900), act(wn, "p3", "status", LS.Closed)))
     @dev("k_time_offgrid", "ctl1")
     def _(wn): wn.add_control("c1", C.Control(C.SimTimeCondition(wn, "=", 3 * 3600 + 25 * 60), act(wn, "p3", "status", LS.Closed)))
     @dev("k_time_seconds", "ctl1")
@@ -475,7 +479,7 @@ NAMED_PAIRS = [("o_reaction", "p_coeffs"), ("o_reaction", "t_bulk"), ("o_qual_ch
                ("o_time", "z_time0"), ("o_pdd", "z_elev0"), ("o_qual_chem", "z_source0"), ("o_energy", "z_pump_speed0")]
 
 
-NOT_IN_INP = ("j_leak", "t_leak", "r_relative", "k_junction_head", "j_leak_removed", "t_leak_removed", "pat_nowrap", "p_cv_closed")      # WNTR-only: no place in the INP format
+NOT_IN_INP = ("j_leak", "t_leak", "r_relative", "k_junction_head", "j_leak_removed", "t_leak_removed", "pat_nowrap", "p_cv_closed", "k_time_ge", "k_clock_after")      # WNTR-only: no place in the INP format
 
 
 def enumerate_specs(dmax, keep=None):
